@@ -132,7 +132,31 @@ class ChainTracer(LogTracer):
         Tracer.on_error(self, trace_context, request, error)
 
 
-TRACER_KINDS = {'full': LogTracer, 'partial': PartialTracer, 'chain': ChainTracer}
+def instance_tracer(idx, log):
+    """a plain Tracer object whose handlers are attributes assigned on the INSTANCE (callbacks, spies, mock.patch.object)"""
+    t = Tracer()
+    t.idx = idx
+    t.on_request_begin = lambda trace_context, request: log.append((idx, 'begin', trace_context, request, None))
+    t.on_request_end = lambda trace_context, request, response: log.append((idx, 'end', trace_context, request, response))
+    t.on_error = lambda trace_context, request, error: log.append((idx, 'error', trace_context, request, error))
+    return t
+
+
+def late_tracer(idx, log):
+    """handlers are put in place only AFTER the client was constructed (see execute)"""
+    t = Tracer()
+    t.idx = idx
+    t.late = lambda: instance_tracer_fill(t, idx, log)
+    return t
+
+
+def instance_tracer_fill(t, idx, log):
+    t.on_request_begin = lambda trace_context, request: log.append((idx, 'begin', trace_context, request, None))
+    t.on_request_end = lambda trace_context, request, response: log.append((idx, 'end', trace_context, request, response))
+    t.on_error = lambda trace_context, request, error: log.append((idx, 'error', trace_context, request, error))
+
+
+TRACER_KINDS = {'full': LogTracer, 'partial': PartialTracer, 'chain': ChainTracer, 'instance': instance_tracer, 'late': late_tracer}
 
 
 def request_ids(kind):
@@ -247,6 +271,9 @@ def execute(cfg, env, horizon=12):
     if cfg.get('client_strategy') is not None:
         kw['retry_strategy'] = make_strategy(cfg['client_strategy'])
     client = make_client(cfg['kind'], responder, tracers=tracers, strict=cfg.get('strict', True), **kw)
+    for t in tracers:
+        if hasattr(t, 'late'):
+            t.late()
     rk = cfg['request']
     # one long-lived client (and, for per-request strategies, one long-lived strategy object) makes `repeat` requests in a row
     rs = cfg.get('request_strategy', 'unset')
